@@ -159,7 +159,7 @@ pub fn dispatch(client: &StatsdClient, call: &Call) -> Result<Option<Result<Stri
 }
 
 pub fn build_client(cfg: &ClientCfg, sink: ScriptedSink, handler_log: Arc<Mutex<Vec<ErrInfo>>>) -> StatsdClient {
-    if cfg.tags.is_empty() && cfg.container.is_none() && !cfg.handler && cfg.prefix.len() % 2 == 0 {
+    if cfg.tags.is_empty() && cfg.container.is_none() && !cfg.handler && cfg.handler_panic_at.is_none() && cfg.prefix.len() % 2 == 0 {
         // the other public constructor (must behave like an option-less builder)
         return StatsdClient::from_sink(&cfg.prefix, sink);
     }
@@ -175,8 +175,14 @@ pub fn build_client(cfg: &ClientCfg, sink: ScriptedSink, handler_log: Arc<Mutex<
     }
     if cfg.handler {
         let hl = HandlerLog(handler_log);
+        let panic_at = cfg.handler_panic_at;
+        let calls = std::sync::atomic::AtomicU32::new(0);
         b = b.with_error_handler(move |e: MetricError| {
             hl.0.lock().unwrap().push(ErrInfo::from_metric_error(&e));
+            let n = calls.fetch_add(1, std::sync::atomic::Ordering::SeqCst) + 1;
+            if panic_at.map_or(false, |k| n == k as u32) {
+                panic!("{} (user error handler panics)", crate::util::HARNESS_PANIC);
+            }
         });
     }
     b.build()
